@@ -334,3 +334,57 @@ def recompute(model_kind, model, after):
         return out
     s = {"b": jnp.asarray(b), "sigma_transformed": jnp.asarray(st), "m": jnp.asarray(m)}
     return [fstr(np.float32(dict_logp(s)))]
+
+
+# ---- a parameter whose stored dtype differs from the dtype of the proposals (integer start values) ---------------
+def int_param_trace(seed=0, n=12):
+    """Two RW kernels over the blocks ["rate"] and ["shift"] of a Liesel model whose parameters were initialised with
+    integers (to_float32 off); eager transitions.  The library may refuse such a state (the accepted and the rejected
+    branch of the MH step have different dtypes: TypeError) - then the trace has no transition; if it does run, every
+    state a kernel hands on must be coherent: the derived mean equals rate * 10 + shift of the *stored* parameters."""
+    import tensorflow_probability.substrates.jax.distributions as tfd
+
+    import liesel.model as lsl
+    from liesel.goose.epoch import EpochConfig, EpochType
+    epoch = EpochConfig(EpochType.POSTERIOR, 10, 1, None).to_state(1, 1)
+    shift = lsl.Var(3, lsl.Dist(tfd.Normal, loc=0.0, scale=10.0), name="shift")
+    rate = lsl.Var(jnp.asarray(2), lsl.Dist(tfd.Normal, loc=0.0, scale=10.0), name="rate")
+    mean = lsl.Var(lsl.Calc(lambda r, s: r * 10.0 + s, rate, shift), name="mean")
+    y = lsl.Var(jnp.asarray([20.0, 25.0, 31.0], jnp.float32), lsl.Dist(tfd.Normal, loc=mean, scale=2.0), name="y")
+    y.observed = True
+    model = lsl.GraphBuilder(to_float32=False).add(y).build_model()
+    interface = gs.LieselInterface(model)
+    kernels = [gs.RWKernel(["rate"], initial_step_size=0.8), gs.RWKernel(["shift"], initial_step_size=1.5)]
+    for k in kernels:
+        k.set_model(interface)
+    state = model.state
+    key = jax.random.PRNGKey(seed)
+    kstates = [k.init_state(key, state) for k in kernels]
+    names = ["rate", "shift"]
+
+    def params(st):
+        pos = interface.extract_position(names, st)
+        return [fstr(np.asarray(pos[nm], np.float64)) for nm in names]
+
+    ev, refused = [], ""
+    for it in range(n):
+        for ki, kern in enumerate(kernels):
+            key, sub = jax.random.split(key)
+            before = params(state)
+            try:
+                out = kern._standard_transition(sub, kstates[ki], state, epoch)
+            except TypeError as ex:
+                refused = f"TypeError: {ex}"[:160]
+                break
+            state = out.model_state
+            after = params(state)
+            d = interface.extract_position(["mean"], state)["mean"]
+            cf = float(after[0]) * 10.0 + float(after[1])
+            ev.append({"ev": "transition", "k": ki + 1, "kind": "rw", "moved": int(out.info.position_moved),
+                       "before": before, "after": after, "derived": [fstr(np.asarray(d, np.float64))],
+                       "recomputed": [fstr(cf)], "closed_form": [fstr(cf)]})
+        if refused:
+            break
+    hdr = {"N": 2, "own": [[1], [2]], "order": [1, 2], "mh_like": [True, True], "model": "liesel_int", "seq": "rw_rate_rw_shift",
+           "refused": refused, "int_param": {"seed": seed, "n": n}}
+    return {"hdr": hdr, "ev": ev}
